@@ -250,6 +250,9 @@ pub fn state_monitors(h: &Hist, ms: &mut MonState, out: &mut Vec<String>) {
             let has_hist = o.users.get(u).map(|x| x.1.contains_key(lp)).unwrap_or(false);
             let has_cursor = o.users.get(u).map(|x| x.0.is_some()).unwrap_or(false);
             if has_hist || has_cursor { out.push(format!("mon_no_pos_no_weight {} {} {} {}", has_open as u8, any_open as u8, has_hist as u8, has_cursor as u8)); }
+            // … and conversely: while a user has an open position in an LP token its weight history for that token exists (it is
+            // cleared only when the last open position in the token goes)
+            if has_open { out.push(format!("mon_pos_has_weight {}", has_hist as u8)); }
         }
     }
 }
@@ -607,6 +610,10 @@ pub fn tx_monitors(h: &Hist, ms: &mut MonState, b: &Obs, line: &str, res: &str, 
                 let out_total = y.saturating_sub(reserve(pa, &ask_d));
                 let net = if tx.kind == "swap" { attr(h, "return_amount").unwrap_or(0) } else { out_total };
                 out.push(format!("mon_cp_slippage {} {} {} {} {} {}", tol, x, y, tx.funds[0].1, net, (tx.kind == "swap") as u8));
+            }
+            // any pool type, direct swap WITH a belief price: the return is at least offer / belief_price x (1 - tolerance)
+            if tx.kind == "swap" && belief != "-" {
+                out.push(format!("mon_belief {} {} {} {}", belief, tol, tx.funds[0].1, attr(h, "return_amount").unwrap_or(0)));
             }
             // stableswap, direct swap without a belief price: the spread is the shortfall of the gross output against the offer,
             // both at the pool's highest precision, expressed in ask units; spread / (return + spread) within the tolerance
